@@ -28,7 +28,7 @@ import (
 )
 
 type Op struct {
-	Kind    string `json:"k"` // hello | up | down | close | advance
+	Kind    string `json:"k"` // hello | up | down | close | srvclose | advance
 	S       int    `json:"s"`
 	Min     int    `json:"min,omitempty"`     // advance: minutes
 	Keepers int    `json:"keepers,omitempty"` // advance: bit set of sessions that poll every minute meanwhile
@@ -68,11 +68,15 @@ func (c Case) String() string {
 }
 
 type sess struct {
-	cl       *sdns.ClientDnsConnection
-	id       uint16
-	status   string // none | live | closed | maybe-expired
-	srvGot   []byte // what the server side of this session read
-	srvConn  interface{ Write([]byte) (int, error) }
+	cl      *sdns.ClientDnsConnection
+	id      uint16
+	status  string // none | live | closed | maybe-expired
+	srvGot  []byte // what the server side of this session read
+	srvConn interface {
+		Write([]byte) (int, error)
+		Close() error
+	}
+	oldSrv   []interface{ Close() error } // server-side connection objects of earlier incarnations of this model session
 	cliGot   []byte
 	upSent   []byte
 	downSent []byte
@@ -164,6 +168,9 @@ func (r *run) apply(i int, o Op) {
 			r.fail("hello-refused", fmt.Sprintf("step %d %v: %v", i, o, err))
 			return
 		}
+		if s.srvConn != nil {
+			s.oldSrv = append(s.oldSrv, s.srvConn)
+		}
 		s.cl, s.id, s.status, s.lastC = cl, cl.VerifUserId(), "live", now
 		s.srvGot, s.cliGot, s.upSent, s.downSent = nil, nil, nil, nil
 		conn := r.w.Dns.Lis.VerifUserConn(s.id)
@@ -200,6 +207,10 @@ func (r *run) apply(i int, o Op) {
 			}
 			s.upSent = append(s.upSent, data...)
 			s.lastC = now
+		} else {
+			// a session the server MAY have aged out may as well still be served: the bytes are
+			// its own client's, so they are allowed (not required) to arrive
+			s.upSent = append(s.upSent, data...)
 		}
 	case "down":
 		s := r.ss[o.S]
@@ -217,11 +228,28 @@ func (r *run) apply(i int, o Op) {
 			}
 			s.downSent = append(s.downSent, data...)
 			s.lastC = now
+		} else {
+			s.downSent = append(s.downSent, data...) // allowed, not required, to arrive (see "up")
 		}
 	case "close":
 		s := r.ss[o.S]
 		do(func() { s.cl.Close() })
 		s.status, s.closedAt = "closed", now
+	case "srvclose":
+		// the server application closes ITS end of a session object it got from Accept - the
+		// current one, or (after the client closed / the slot was recycled) a stale one
+		s := r.ss[o.S]
+		if s.status == "live" {
+			do(func() { s.srvConn.Close() })
+			s.status, s.closedAt = "closed", now
+		} else {
+			for _, c := range append(append([]interface{ Close() error }{}, s.oldSrv...), s.srvConn) {
+				if c != nil {
+					cc := c
+					do(func() { cc.Close() })
+				}
+			}
+		}
 	case "advance":
 		for m := 0; m < o.Min; m++ {
 			bubble.Advance(time.Minute)
@@ -485,15 +513,24 @@ func enabled(k int, ops []Op, thorough bool) []Op {
 			status[o.S] = "live"
 		case "close":
 			status[o.S] = "closed"
+		case "srvclose":
+			if status[o.S] == "live" {
+				status[o.S] = "closed"
+			} else {
+				status[o.S] = "closed+srvclosed"
+			}
 		}
 	}
 	var out []Op
 	for s := 0; s < k; s++ {
 		switch status[s] {
-		case "none", "closed":
+		case "none", "closed", "closed+srvclosed":
 			out = append(out, Op{Kind: "hello", S: s})
 		case "live":
-			out = append(out, Op{Kind: "up", S: s}, Op{Kind: "down", S: s}, Op{Kind: "close", S: s})
+			out = append(out, Op{Kind: "up", S: s}, Op{Kind: "down", S: s}, Op{Kind: "close", S: s}, Op{Kind: "srvclose", S: s})
+		}
+		if status[s] == "closed" {
+			out = append(out, Op{Kind: "srvclose", S: s})
 		}
 	}
 	mins := []int{6, 31}
@@ -542,11 +579,12 @@ func TestCheck(t *testing.T) {
 	seen := map[string]bool{}
 	frontier := []item{{}}
 	execs := 0
+	capped := false
 	for len(frontier) > 0 {
 		cur := frontier[0]
 		frontier = frontier[1:]
-		if r.OverBudget() {
-			r.Cap("time budget reached during BFS")
+		if r.OverBudget() || capped {
+			r.Cap(fmt.Sprintf("time budget reached during BFS at depth %d", len(cur.ops)+1))
 			break
 		}
 		ops := enabled(k, cur.ops, r.Thorough())
@@ -562,14 +600,26 @@ func TestCheck(t *testing.T) {
 				// every shard walks the first level (cheap) to reach its own second level
 				_ = oi
 			}
+			if r.OverBudget() {
+				capped = true
+				break
+			}
 			c := Case{K: k, Ops: path}
-			var kind, detail, key string
-			var probes []Probe
-			r.Guard(execs, 120*time.Second, "hang", c.String(), c, func() {
-				kind, detail, key, probes = execute(t, c, true)
+			var o1 struct {
+				Kind, Detail, Key string
+				Probes            []Probe
+			}
+			replayed, hung := r.Memo(execs, &o1, func() {
+				r.Guard(execs, 120*time.Second, "hang", c.String(), c, func() {
+					o1.Kind, o1.Detail, o1.Key, o1.Probes = execute(t, c, true)
+				})
 			})
 			execs++
-			if len(path) >= 2 || r.Shard == 0 {
+			if hung {
+				continue // journalled as a watchdog hang by the earlier segment
+			}
+			kind, detail, key, probes := o1.Kind, o1.Detail, o1.Key, o1.Probes
+			if !replayed && (len(path) >= 2 || r.Shard == 0) {
 				record(c, kind, detail)
 			}
 			if kind != "" {
@@ -588,19 +638,30 @@ func TestCheck(t *testing.T) {
 			if len(path) >= 2 || r.Shard == 0 {
 				for _, p := range probes {
 					p := p
+					if r.OverBudget() {
+						capped = true
+						break
+					}
 					pc := Case{K: k, Ops: path, Probe: &p}
-					var pk, pd string
-					r.Guard(execs, 120*time.Second, "hang", pc.String(), pc, func() {
-						pk, pd, _, _ = execute(t, pc, false)
+					var o2 struct{ Kind, Detail string }
+					rep2, hung2 := r.Memo(execs, &o2, func() {
+						r.Guard(execs, 120*time.Second, "hang", pc.String(), pc, func() {
+							o2.Kind, o2.Detail, _, _ = execute(t, pc, false)
+						})
 					})
 					execs++
-					record(pc, pk, pd)
+					if !rep2 && !hung2 {
+						record(pc, o2.Kind, o2.Detail)
+					}
 				}
 			}
 			if len(path) < depth {
 				frontier = append(frontier, item{path})
 			}
 		}
+	}
+	if capped && len(frontier) == 0 {
+		r.Cap("time budget reached during BFS (last level)")
 	}
 	var keys []string
 	for s := range seen {
